@@ -96,7 +96,7 @@ auto('C07', 'exploration',
      'The order of entries inside one source (default_options list, machine-file section) is not asserted; deprecated-option remapping and per-language inheritance are sampled. One recorded finding (sp:buildtype overriding an explicit sp:debug) is excluded from the tables and re-checked by a probe.')
 auto('C08', 'exploration',
      'Hypothesis stateful histories (setup / configure -D / -U / reconfigure / wipe / option-file edits / injected failures) against a reference model of the option state, compared after every step through introspect --buildoptions, get_option() messages and cmd_line.txt; failing histories replayed with one fresh subprocess per command',
-     'Corners the documentation leaves open (type change of an option carrying a user value) are only required to be valid for the new declaration. Ten recorded findings are bucketed by root-cause signature, excluded from generation and re-checked by saved histories.')
+     'Corners the documentation leaves open (type change of an option carrying a user value) are only required to be valid for the new declaration. Nine recorded findings are bucketed by root-cause signature, excluded from generation and re-checked by saved histories.')
 auto('C09', 'fault_enumeration',
      'kill-point enumeration: for each generated history and mutating command the list of file-system mutations is recorded through a sitecustomize shim, then the command is re-run once per mutation (os._exit(137) before the operation, and torn half-writes) from a restored snapshot; oracle: the prescribed follow-up (setup / setup --reconfigure) exits 0 without unhandled exception and every option is either the pre-command or the intended value',
      'Kill points are Python-level mutation calls (open/write/flush/close, replace, rename, unlink, mkdir, rmdir ...) and half-writes, not individual write(2) syscalls or post-crash reordering of unsynced data; histories are sampled, kill points per history are enumerated completely. After a killed FIRST setup meson reports the directory as configured; the follow-up it recommends (--reconfigure) is judged.')
@@ -114,7 +114,7 @@ auto('C13', 'exploration',
      'len() before a flush and to_native(copy=False) followed by further use of the same object are excluded (destructive by design); the end-to-end probe checks the one real caller of that pattern (link arguments in intro-targets.json vs build.ninja).')
 auto('C14', 'exploration',
      'Hypothesis templates assembled from placeholder-like fragments x configuration data x three formats (+ exhaustive short strings over a placeholder alphabet, header generation without template, sampled real configure_file) against an independent left-to-right scanner written from Configuration.md and validated on the repository fixtures; missing-name sets compared; every non-placeholder byte incl. line endings must be copied',
-     'For the cmake formats data values containing @ $ { } are excluded (CMake re-scan semantics are not claimed by the property). Three recorded findings (#mesondefine value re-scanned, name inside a #cmakedefine value not reported, placeholder after an empty cmake value skipped) are excluded from comparison in the campaign and re-checked by probes.')
+     'For the cmake formats data values containing @ $ { } are excluded (CMake re-scan semantics are not claimed by the property). One recorded finding (#mesondefine value re-scanned) is excluded from comparison in the campaign and re-checked by a probe; two earlier ones (name inside a #cmakedefine value not reported, placeholder after an empty cmake value skipped) were repaired in /repo and are enforced again.')
 auto('C16', 'exploration',
      'Hypothesis grammar programs decorated with a trivia strategy (comments in every position, continuations, blank runs, odd spacing, trailing commas, redundant parentheses, all string kinds) x formatter configurations (+ mutated corpus files, the repository format test inputs); oracle: independent reference lexer/parser gives the same tree modulo trivia / trailing commas / parentheses and the documented literal rewrites (strings compared by denotation), same comment sequence, format(format(x)) == format(x), --check-only / --check-diff agree with the diff, no non-Meson exception',
      'Trusts harness/reffmt.py + refmeson (differentially self-tested against mparser on the repository build files). Seven recorded findings (one comment loss, one character loss inside a comment, five idempotence families) are classified by hazard predicates on the input text, excluded from the campaign and re-checked by probes.')
@@ -125,7 +125,7 @@ auto('C15', 'exploration',
 
 auto('C17', 'exploration',
      'Hypothesis source trees (targets with literal / variable / nested / shared source lists, other arguments carrying closed core-language expressions with every grouping trap) x 1-3 rewriter commands (JSON script mode and CLI), judged by an independent reading of the tree before and after (own lexer, parser, evaluator): touched files parse, the addressed value is exactly the requested one and `info` reports it, every statement outside the data flow of the addressed value is byte-identical, every other argument of a re-printed call evaluates to the value it had, inverse laws, failures leave all files untouched',
-     'Trusts harness/refmeson.py (reference reader/evaluator). The order of sources inside a target, indentation and comments inside a re-printed call, and where a new keyword is placed are not part of the property (Rewriter.md limitations). Five recorded findings (extra_files given as a string, backslash in command values, CLI boolean false, blank lines inside a triple-quoted string of a re-printed statement, file added to a list that only occurs in a condition) are excluded by construction and re-checked by probes.')
+     'Trusts harness/refmeson.py (reference reader/evaluator). The order of sources inside a target, indentation and comments inside a re-printed call, and where a new keyword is placed are not part of the property (Rewriter.md limitations). Four recorded findings (extra_files given as a string, backslash in command values, blank lines inside a triple-quoted string of a re-printed statement, file added to a list that only occurs in a condition) are excluded by construction and re-checked by probes.')
 
 NOT_YET = 'no check is registered for this property in this revision (see DESIGN.md section 8 for status)'
 
